@@ -31,8 +31,22 @@ Section O14.
   (* obligations are stated for files no component of whose path matches an exclude pattern ... *)
   Definition conflicts (deep : bool) (i : sinput) := conflicts_gen (path_excluded i) deep i.
   (* ... while a FileSyncConflict is justified by any differing file whose own name is not excluded *)
-  Definition conflicts_by_name (deep : bool) (i : sinput) :=
-    conflicts_gen (fun p => path_excluded i [last_name p]) deep i.
+  Definition name_excluded (i : sinput) (p : path) : bool :=
+    o_exclude (i_opts i) (last_name p) || path_eqb p [FN_SP] || (negb (doc_is_file i) && path_eqb p [FN_DOC]).
+  Definition conflicts_by_name (deep : bool) (i : sinput) := conflicts_gen (name_excluded i) deep i.
+
+  (* a reachable name that is a file on one side and a directory on the other, its own name not excluded *)
+  Definition kind_clash (i : sinput) (sd dd : dir) : bool :=
+    existsb (fun e =>
+               (o_recursive (i_opts i) || Nat.eqb (length (fst e)) 1)
+               && negb (name_excluded i (fst e))
+               && match lookup_path (fst e) (Dir dd), snd e with
+                  | Some (Dir _), Some _ => true
+                  | Some (File _ _), None => true
+                  | _, _ => false
+                  end) (flat sd).
+  Definition any_clash (i : sinput) : bool :=
+    existsb (fun pr => match snd pr with Some dd => kind_clash i (snd (fst pr)) dd | None => false end) (pairs i).
 
   Definition is_content (c : content) (x : option (content * Z)) : bool :=
     match x with Some (c', _) => content_eqb frepr c c' | None => false end.
@@ -87,13 +101,14 @@ Section O14.
     o_dry_run (i_opts i)
     || (files_ok_with (o_deep (i_opts i)) i o
         && (negb (exn_opt_eqb (ob_exn o) (Some EFileSyncConflict))
-            || (is_none (o_strategy (i_opts i)) && any_conflict (o_deep (i_opts i)) i))
+            || (is_none (o_strategy (i_opts i)) && any_conflict (o_deep (i_opts i)) i)
+            || any_clash i)                       (* a file / directory clash conflicts whatever the strategy *)
         && (negb (is_none (ob_exn o)) || superset frepr i o)).
 
   (* ---------------------------------------------------------------- documents *)
   (* a key whose values differ (and are not both mappings) keeps its value unless the key strategy selects
      its full dotted name *)
-  Fixpoint only_selected (ks : option (str -> bool)) (prefix : str) (sv dv dv' : json) {struct sv} : bool :=
+  Fixpoint only_selected (ks : option (str -> option bool)) (prefix : str) (sv dv dv' : json) {struct sv} : bool :=
     match sv, dv with
     | JObj s, JObj d =>
         (fix go (l : kvs) : bool :=
@@ -133,6 +148,25 @@ Section O14.
     | _, _ => false
     end.
 
+  (* the key strategy callback raises on some key that ByKey asks it about (a differing key whose source value
+     is not a mapping), full dotted name *)
+  Fixpoint has_fault (ks : option (str -> option bool)) (prefix : str) (sv dv : json) {struct sv} : bool :=
+    match sv, dv with
+    | JObj s, JObj d =>
+        (fix go (l : kvs) : bool :=
+           match l with
+           | [] => false
+           | (k, x) :: l' =>
+               match alookup k d with
+               | None => false
+               | Some y => if py_eq y x then false
+                           else if is_obj x then (if is_obj y then has_fault ks (prefix ++ k ++ [DOT]) x y else false)
+                           else ks_raises ks (prefix ++ k)
+               end || go l'
+           end) s
+    | _, _ => false
+    end.
+
   Definition doc_ok (i : sinput) (o : sobs) (fn : str) (sd dd dd' : dir) : bool :=
     let '(s, d, d') := docs_of fn sd dd dd' in
     match o_docsync (i_opts i) with
@@ -140,6 +174,11 @@ Section O14.
         only_selected ks [] (JObj s) (JObj d) (JObj d')
         && (negb (exn_opt_eqb (ob_exn o) (Some EDocumentSyncConflict))
             || negb (has_conflict (JObj s) (JObj d))
+            || node_eqb frepr (alookup fn dd) (alookup fn dd'))
+        (* "failed syncs roll documents back": a key strategy callback that raises (KeyboardInterrupt, SystemExit;
+           reported as EOther) aborts the call; the document whose synchronisation it interrupted is rolled back *)
+        && (negb (exn_opt_eqb (ob_exn o) (Some EOther))
+            || negb (has_fault ks [] (JObj s) (JObj d))
             || node_eqb frepr (alookup fn dd) (alookup fn dd'))
     | DS_update =>
         (* "overwrites": the destination value equals (Python ==) the source value afterwards; equal documents
